@@ -7,6 +7,7 @@ import Driver.Sexp
 import Driver.Pool
 import Driver.Scheduler
 import Driver.EGraph
+import Driver.ProofCk
 open Driver
 
 structure St where
@@ -28,6 +29,7 @@ def dispatch (s : St) (line : String) : St × String :=
   | "pool" :: rest => (s, poolStep rest)
   | "sch" :: rest => (s, schStep rest)
   | "eg" :: rest => let (p, o) := egStep s.eg rest; ({ s with eg := p }, o)
+  | "pk" :: rest => (s, pkStep rest)
   | _ => (s, "bad-op")
 
 partial def loop (h : IO.FS.Stream) (out : IO.FS.Stream) (s : St) : IO Unit := do
